@@ -480,8 +480,8 @@ theorem place_ok : (x : Expr) → (i : Nat) → Pre all i (yield x) → nf x = t
     simp only [yield, Pre_cons', Pre_append, Pre_nil, and_true, yield_length] at hpre
     obtain ⟨he, _, hix, hrb⟩ := hpre
     simp only [nf, Bool.and_eq_true] at hnf
-    have IHe := place_ok e i he hnf.1.1
-    have IHx := place_ok ix (i + ntok e + 1) hix hnf.1.2
+    have IHe := place_ok e i he hnf.1
+    have IHx := place_ok ix (i + ntok e + 1) hix hnf.2
     have hse := placeG_snd (pe all) e i
     have hsx := placeG_snd (pe all) ix (i + ntok e + 1)
     have hrbe := tok_rbrack hT hrb
